@@ -11,7 +11,7 @@ CONSTANTS Elements,     \* alphabet: records [name, arg] ; arg is a sequence of 
           Uids,         \* real uids of the calling process (0 = root)
           Defects       \* subset of {"stop_at_unknown", "arg_leak", "prefix_match", "first_only", "empty_drops"}
 
-Known == {"only_root", "only_uid", "exclude_uid", "only_tty", "noop"}
+Known == {"only_root", "only_uid", "exclude_uid", "only_tty", "noop", "exclude_spawns_of"}
 Proc == [uid : Uids, tty : BOOLEAN]
 InList(u, l) == \E i \in 1..Len(l) : l[i] = u
 
@@ -22,6 +22,7 @@ FilterPass(name, arg, ps) ==
       [] name = "exclude_uid" -> ~InList(ps.uid, arg)
       [] name = "only_tty"    -> ps.tty
       [] name = "noop"        -> TRUE
+      [] name = "exclude_spawns_of" -> TRUE      \* in chains its list holds numbers, which no ancestor of the harness is called (C15 covers the filter itself)
       [] OTHER -> TRUE
 Decision(chain, ps) == \A i \in 1..Len(chain) : chain[i].name \in Known => FilterPass(chain[i].name, chain[i].arg, ps)
 
